@@ -238,7 +238,7 @@ def h7(ctx):
     ps = crate.free_fn("pattern_subst")
     if len(ps) != 1:
         raise mir.AnchorMissing("pattern_subst")
-    p = ps[0]
+    p = mir.inline_view(crate, ps[0], keep=("pattern_subst", "do_term_subst"))
     sub = [c for c in p.calls if c.callee and c.callee.name == "subst" and (c.callee.trait or "").endswith("SubstMethod") and not p.blocks[c.bb]["cleanup"]]
     if not ctx.floor("SubstMethod::subst call sites in pattern_subst", len(sub), 1):
         return
